@@ -9,7 +9,6 @@ import (
 	"regexp"
 	"sort"
 	"strings"
-	"unicode"
 
 	apiext "k8s.io/apiextensions-apiserver/pkg/apis/apiextensions/v1"
 	"sigs.k8s.io/yaml"
@@ -143,15 +142,6 @@ type sgen struct {
 }
 
 func pathKey(path []string) string { return strings.Join(path, ".") }
-
-func lcFirst(s string) string {
-	if s == "" {
-		return s
-	}
-	rs := []rune(s)
-	rs[0] = unicode.ToLower(rs[0])
-	return string(rs)
-}
 
 func enumStrings(s *apiext.JSONSchemaProps) []string {
 	var out []string
